@@ -32,6 +32,8 @@ Vectors ==
   \cup
   {[op |-> o, status |-> s, via |-> "response", shape |-> sh, cause |-> FALSE] :
       o \in Ops, s \in RequestStatuses, sh \in {"absent", "full"}}
+  \cup     \* a successful claim of a task of each kind (what it carries depends on the kind)
+  {[op |-> "ClaimTask", status |-> 20100, via |-> "response", shape |-> sh, cause |-> FALSE] : sh \in {"invoke", "resume", "notify"}}
   \cup
   {[op |-> o, status |-> s, via |-> "error", shape |-> "absent", cause |-> c] :
       o \in Ops, s \in RequestStatuses \cup PlatformStatuses, c \in BOOLEAN}
